@@ -207,10 +207,12 @@ class OrderDomain(NormDomain):
                     return
                 c = rb.num.const_value() / rb.den.const_value()
                 p = ra.num * (Fraction(1) / ra.den.const_value())
-                if len(p.t) == 1:
-                    (m, k), = p.t.items()
-                    if len(m) == 1 and m[0][1] == 1 and k == 1 and m[0][0] in self.lower and self.lower[m[0][0]] == c:
-                        self.lower[m[0][0]] = c + 1
+                c0 = p.t.get((), Fraction(0))
+                rest = {m: k for m, k in p.t.items() if m != ()}
+                if len(rest) == 1:
+                    (m, k), = rest.items()
+                    if len(m) == 1 and m[0][1] == 1 and k == 1 and m[0][0] in self.lower and self.lower[m[0][0]] + c0 == c:
+                        self.lower[m[0][0]] = self.lower[m[0][0]] + 1
 
     def seq_min(self, sv):
         """Lower bound of the elements of a (sliced, shifted) strictly ascending order list."""
